@@ -218,6 +218,12 @@ func (m *Message) ensureData(ctx context.Context, needed int) error {
 	return nil
 }
 
+// exhausted reports whether the end-of-message frame has been read and every
+// byte of it consumed: nothing further can be decoded from this message.
+func (m *Message) exhausted() bool {
+	return m.isEOM && m.buffer.Len() == 0
+}
+
 // IsEncode returns true if in encode mode
 func (m *Message) IsEncode() bool {
 	return m.direction == CodingEncode
